@@ -239,16 +239,39 @@ func ExecWrite(e *engine.EngineFacade, o Op) ExecResult {
 			res.Err = fmt.Errorf("begin: %w", err)
 			return res
 		}
+		scribble := func(bufs ...[]byte) {
+			for _, b := range bufs {
+				for i := range b {
+					b[i] ^= 0x5a
+				}
+			}
+		}
 		for i, s := range o.Sub {
 			switch s.K {
 			case "put":
-				if err := tx.Put(s.Key, s.Value()); err != nil {
+				kb, vb := s.Key, s.Value()
+				if o.Scribble {
+					kb, vb = append([]byte{}, kb...), append([]byte{}, vb...)
+				}
+				err := tx.Put(kb, vb)
+				if o.Scribble {
+					scribble(kb, vb) // the caller reuses its buffers
+				}
+				if err != nil {
 					tx.Rollback()
 					res.Err = fmt.Errorf("tx put: %w", err)
 					return res
 				}
 			case "del":
-				if err := tx.Delete(s.Key); err != nil {
+				kb := s.Key
+				if o.Scribble {
+					kb = append([]byte{}, kb...)
+				}
+				err := tx.Delete(kb)
+				if o.Scribble {
+					scribble(kb)
+				}
+				if err != nil {
 					tx.Rollback()
 					res.Err = fmt.Errorf("tx delete: %w", err)
 					return res
@@ -267,7 +290,13 @@ func ExecWrite(e *engine.EngineFacade, o Op) ExecResult {
 				}
 			}
 		}
+		if o.Abandon {
+			return res
+		}
 		if o.Commit {
+			if o.PreCommit != nil {
+				o.PreCommit()
+			}
 			res.Err = tx.Commit()
 		} else {
 			res.Err = tx.Rollback()
